@@ -18,7 +18,7 @@ from ..consteval import fold_expr
 from ..cfg import CFG
 from .. import tables
 from ..tables import Atom
-from .c01_sym import SymPath, sym_paths, is_call, show
+from .c01_sym import SymPath, sym_paths, is_call, show, private_helpers
 
 MPARSER = 'mesonbuild/mparser.py'
 
@@ -259,7 +259,7 @@ def _summaries(ctx: RuleCtx, mod: Module, meth: str, unroll: int = 3) -> T.Tuple
     fn = mod.func(f'Parser.{meth}')
     rets: T.List[Summary] = []
     raises: T.List[Summary] = []
-    for sp in sym_paths(fn, unroll=unroll):
+    for sp in sym_paths(fn, unroll=unroll, helpers=private_helpers(mod.cls('Parser'))):
         s = Summary(ctx, mod, f'Parser.{meth}', sp)
         if sp.outcome == 'return':
             rets.append(s)
